@@ -19,6 +19,7 @@ Inductive cpath :=
 | PLocate (c : cpo) (name : string) (first_ok : bool)
 | PPull (c : cpo) (name : string) (with_prov first_ok : bool)
 | PManager (dep_repo name version : string) (with_prov first_ok : bool)
+| PManagerAll (deps : list (string * string * string * bool)) (with_prov : bool)
 | PUrls (l : list (string * option usplit)).       (* url.Parse on generated strings: differential check of Misc/CredsUrl.v *)
 
 (* one request seen by the capture server: first hops (the getter's doing) and redirect
@@ -63,6 +64,7 @@ Section Run.
     | PLocate o name ok => locate_chart t_parse t_equal t_lookup t_index_url t_find_in o name (k_repos c) ok
     | PPull o name wp ok => pull t_parse t_equal t_lookup t_index_url t_find_in o name (k_repos c) wp ok
     | PManager dr name ver wp ok => manager_dep t_parse t_equal t_lookup t_index_url t_find_in t_dep_url dr name ver (k_repos c) wp ok
+    | PManagerAll deps wp => download_all t_parse t_equal t_lookup t_index_url t_find_in t_dep_url deps (k_repos c) wp
     | PUrls _ => []
     end.
 
@@ -155,7 +157,7 @@ Section Run.
      those requests are covered by PIndex and are left out of the manager comparison *)
   Definition keep (o : obs) : bool :=
     match k_path c with
-    | PManager _ _ _ _ _ => negb (ends_with "index.yaml" (ob_path o))
+    | PManager _ _ _ _ _ | PManagerAll _ _ => negb (ends_with "index.yaml" (ob_path o))
     | _ => true
     end.
 
